@@ -6,14 +6,15 @@ import Chewing.Driver.Util
 
     capiget obs <display> <len> <is_empty> <cursor> <commit> <notice> <bopomofo> <entering_syllable> <is_selecting>
                 <all_candidates> <paginated_candidates> <total_page> <current_page_no> <has_next> <has_prev>
-                <intervals> <last_key_behavior> <options>
-            => commit_Check=… commit_String=… … modes=…
+                <intervals> <last_key_behavior> <options> <phone sequence>
+            => commit_Check=… commit_String=… … modes=… zuin_Check=… zuin_String=… zuin_count=… phoneSeqLen=… phoneSeq=…
 
 Before `=>`: the answers of the TWIN editor's Rust getters after a call of a generated C-API history (texts `x<hex>`,
 lists `L<x…>,<x…>` or `-` for `Err`, options `-` for `Err`, intervals `I<start>:<end>:<is_phrase>,…`, the 14 option fields in the
 encoding of `Model/Config.lean`).  After `=>`: what the REAL C getters returned on the C context driven with the same
 calls, in the order `observe_c` asks them (every plain getter once, `chewing_cand_string_by_index(_static)` for
-0..TotalChoice and for -1, TotalChoice, TotalChoice+7, the two enumeration loops, the eleven legacy mode getters).
+0..TotalChoice and for -1, TotalChoice, TotalChoice+7, the two enumeration loops, the eleven legacy mode getters, the deprecated
+`chewing_zuin_Check` / `chewing_zuin_String(ctx, &count)`, `chewing_get_phoneSeqLen` / `chewing_get_phoneSeq`).
 
 The model (`Model/CApiGetters.lean`: `getOn` over the generated table `Gen.CApiGetters.getterTable`) recomputes every
 answer from the facts, threading the getter slots (static buffers, iterator slots) through the calls in that order.
@@ -141,19 +142,32 @@ def capigetObs (f : GFacts) : String :=
     let (r, v) := acc.1.call f (.mode fn)
     (r, acc.2 ++ [gInt v])) (r, [])
   let r := { r with out := ("modes=" ++ ",".intercalate ms) :: r.out }
+  let (r, zc) := r.call f .zuinCheck
+  let (r, zs) := r.call f .zuinString
+  let (r, pl) := r.call f .phoneSeqLen
+  let (r, ps) := r.call f .phoneSeq
+  let (zsText, zsCount) := match zs with
+    | .strCount p c => (gText (.heap p), toString c)
+    | _ => ("x??", "?")
+  let psText := match ps with
+    | .ushorts v => "P" ++ ",".intercalate (v.map toString)
+    | _ => "P?"
+  let r := { r with out := ("phoneSeq=" ++ psText) :: ("phoneSeqLen=" ++ gInt pl) :: ("zuin_count=" ++ zsCount) ::
+    ("zuin_String=" ++ zsText) :: ("zuin_Check=" ++ gInt zc) :: r.out }
   match r.bad with
   | some b => "model-" ++ b
   | none => unwords r.out.reverse
 
 def capigetExpected (fn : String) (args : List String) : Option String :=
   match fn, args with
-  | "obs", [disp, len, emp, cur, com, notice, bopo, es, sel, all, pag, tp, cp, hn, hp, ivs, last, opts] =>
+  | "obs", [disp, len, emp, cur, com, notice, bopo, es, sel, all, pag, tp, cp, hn, hp, ivs, last, opts, phones] =>
     let f : GFacts :=
       { display := cpsOfHx disp, len := natOf len, isEmpty := emp == "1", cursor := natOf cur, commit := cpsOfHx com,
         notice := cpsOfHx notice, bopo := cpsOfHx bopo, enteringSyllable := es == "1", isSelecting := sel == "1",
         allCandidates := gListOf all, paginated := gListOf pag, totalPage := gOptNat tp, currentPageNo := gOptNat cp,
         hasNextSel := hn == "1", hasPrevSel := hp == "1", intervals := gIntervals ivs, last := gKB last,
-        options := Config.Options.ofList ((opts.splitOn ",").map natOf) }
+        options := Config.Options.ofList ((opts.splitOn ",").map natOf),
+        phoneSeq := (let body := (phones.drop 1).toString; if body.isEmpty then [] else (body.splitOn ",").map natOf) }
     some (capigetObs f)
   | _, _ => none
 
